@@ -510,11 +510,12 @@ func registerMisc() {
 	}
 	srcS := func(a []Val) []int64 { return a[0].L }
 	reg("ChooseRandomSliceElementN", "s+,nsel", 1, func(c *cx) []Val {
-		oracle(c, 2, VL(collection.ChooseRandomSliceElementN(c.S(0), c.I(1))))
+		oracle(c, 2, VL(c.out(collection.ChooseRandomSliceElementN(c.S(0), c.I(1)))))
 		return r1(VB(true))
 	}, membersLaw(srcS, true)).orc()
 	reg("ChooseRandomIndexN", "s+,nsel0", 1, func(c *cx) []Val {
 		r := collection.ChooseRandomIndexN(c.S(0), c.I(1))
+		regOut(c, "the result", r)
 		l := make([]int64, len(r))
 		for i, x := range r {
 			l[i] = int64(x)
@@ -529,7 +530,7 @@ func registerMisc() {
 		return r
 	}, true)).orc()
 	reg("ChooseRandomSliceElementRepeatN", "s+,nsel", 1, func(c *cx) []Val {
-		oracle(c, 2, VL(collection.ChooseRandomSliceElementRepeatN(c.S(0), c.I(1))))
+		oracle(c, 2, VL(c.out(collection.ChooseRandomSliceElementRepeatN(c.S(0), c.I(1)))))
 		return r1(VB(true))
 	}, membersLaw(srcS, false)).orc().onlyCoqIf(never)
 	reg("ChooseRandomMapKeyN", "m,nselm", 1, func(c *cx) []Val {
@@ -565,9 +566,17 @@ func registerMisc() {
 		src := c.a[0].LL
 		items := make([]item, len(src))
 		for i, l := range src {
-			items[i] = item{ID: l[0], Deps: append([]int64{}, l[1:]...)}
+			items[i] = item{ID: l[0], Deps: spare(l[1:], xsAt(c.a[0].XS, i), sentinel)}
+		}
+		// the item list and the dependency lists are slice arguments as well (shape: Val.X / Val.XS)
+		items = spare(items, c.a[0].X, func(j int) item { return item{ID: sentinel(j)} })
+		watch(c, 0, "", true, items, func(a, b item) bool { return a.ID == b.ID && sameHdr(a.Deps, b.Deps) },
+			func(a item) string { return fmt.Sprintf("{%s %s}", showZ(a.ID), showHdr(a.Deps)) })
+		for i := range items {
+			watch(c, 0, fmt.Sprintf("dependencies of item #%d", i), false, items[i].Deps, sameZ, showZ)
 		}
 		sorted, err := collection.TopologicalSort(items, func(it item) int64 { return it.ID }, func(it item) []int64 { return it.Deps })
+		regOut(c, "the result", sorted)
 		// the order in which the implementation ranged over its node map is not observable; for a correct result
 		// it is reproduced by the result itself (see TopoModel.v); otherwise any order gives the same verdict
 		order := []int64{}
